@@ -18,12 +18,15 @@ type c12Shape struct {
 	Arg    string
 	Before string // file text before the operand
 	After  string // file text after the operand
+	// MayRefuse: a layout the tool is free not to support; when update refuses it (and leaves the file alone) the round
+	// trip says nothing, when update accepts it compare has to follow
+	MayRefuse bool
 }
 
 func c12Shapes() []c12Shape {
 	mk := func(name, arg, file string) c12Shape {
 		i := strings.Index(file, "OPERAND")
-		return c12Shape{name, arg, file[:i], file[i+len("OPERAND"):]}
+		return c12Shape{name, arg, file[:i], file[i+len("OPERAND"):], false}
 	}
 	crlf := func(s string) string { return strings.ReplaceAll(s, "\n", "\r\n") }
 	plain := "SecRule ARGS \"@rx OPERAND\" \\\n    \"id:123456,\\\n    phase:2,\\\n    t:none\"\n"
@@ -38,6 +41,16 @@ func c12Shapes() []c12Shape {
 		mk("chain link", "123456-chain1", chain),
 		mk("neighbours", "123456", neigh),
 		mk("single line file", "123456", "SecRule ARGS \"@rx OPERAND\" \\\nid:123456"),
+		func() c12Shape {
+			sh := mk("id on the second action line", "123456", "SecRule ARGS \"@rx OPERAND\" \\\n    \"phase:2,\\\n    id:123456,\\\n    t:none\"\n")
+			sh.MayRefuse = true
+			return sh
+		}(),
+		func() c12Shape {
+			sh := mk("operator on the line after SecRule", "123456", "SecRule ARGS \\\n    \"@rx OPERAND\" \\\n    \"id:123456,\\\n    t:none\"\n")
+			sh.MayRefuse = true
+			return sh
+		}(),
 	}
 }
 
@@ -183,6 +196,9 @@ func C12(r *core.Run) {
 				write(stale)
 				o.States++
 				if !update() {
+					if sh.MayRefuse && read() == sh.Before+stale+sh.After {
+						continue
+					}
 					fail("stored-equals-generated", "update fails", stale, "")
 					continue
 				}
@@ -373,7 +389,44 @@ func C12(r *core.Run) {
 				fail("update-then-compare-unchanged", "compare --all right after a successful update --all reports a changed rule: "+tailStr(c.Stdout, 200))
 			}
 		}
+		// how the rules file is called: whatever file update --all writes to, compare has to read
+		for _, name := range []string{"REQUEST-123-TEST.conf.example", "REQUEST-123-TEST.conf~", "REQUEST-123-TEST", "REQUEST-123-TEST.CONF", "x-123-y"} {
+			if idx++; idx%n != shard {
+				continue
+			}
+			os.RemoveAll(filepath.Join(wd, "regex-assembly"))
+			os.RemoveAll(filepath.Join(wd, "rules"))
+			t := core.Tree{"regex-assembly/toolchain.yaml": c01Yaml, "regex-assembly/include/": "", "regex-assembly/exclude/": ""}
+			for i, a := range ids {
+				t["regex-assembly/"+a+".ra"] = texts[i]
+			}
+			file := rulesFile(ruleSpec{ID: "123456", Regex: "STALE0", Chain: []string{"STALE1", "STALE2"}}, ruleSpec{ID: "123457", Regex: "STALE3"})
+			t["rules/"+name] = file
+			t.Materialise(wd)
+			r.Inflight("rules file name " + name)
+			o.Programs++
+			o.States++
+			o.Transitions += 4
+			up := root.UpdateAll()
+			got, _ := os.ReadFile(filepath.Join(wd, "rules", name))
+			fail := func(clause, why string) {
+				o.Fails = append(o.Fails, c12Fail{clause, "rules/" + name, "update --all with the rules file called " + name, "", string(got), why, "all"})
+			}
+			if up.Kind != inproc.OK || string(got) == file {
+				continue // a name the tool does not take for a rules file is outside the round trip
+			}
+			if c := root.CompareAll(true); c.Kind != inproc.OK || strings.Contains(c.Stdout, "has changed") {
+				fail("update-then-compare-unchanged", "compare --all (github) right after a successful update --all fails or reports a changed rule: "+tailStr(c.Stdout, 200))
+			}
+			if c := root.Compare("123456", false); c.Kind != inproc.OK || !strings.Contains(c.Stdout, "has not changed") {
+				fail("update-then-compare-unchanged", "compare 123456 right after a successful update --all fails or reports a change: "+tailStr(c.Stdout, 200))
+			}
+			if c := root.Compare("123457", true); c.Kind != inproc.OK {
+				fail("update-then-compare-unchanged", "compare 123457 (github) right after a successful update --all fails: "+tailStr(c.Stdout, 200))
+			}
+		}
 		os.RemoveAll(filepath.Join(wd, "regex-assembly"))
+		os.RemoveAll(filepath.Join(wd, "rules"))
 	}
 	outs, deaths := core.Parallel(r, "machine", spec, r.Workers, func(in in, shard, n int, emit func(out)) {
 		var o out
